@@ -424,3 +424,5 @@ def run(ctx):
     # the raised error keeps the frame, the frame the suspended iterator, the iterator its scopes: the next call starts inside them)
     from .c07 import rule_no_held_iterator
     rule_no_held_iterator(ctx, "R4.9")
+    # R4.10: is_valid / validate take the first error: the chain that hands errors up yields them as they are produced
+    scope.rule_first_error_path_lazy(ctx, "R4.10")
